@@ -26,6 +26,10 @@ claim('C03', 'CrossHair symbolic execution of the real parsers (Earley, LALR, CY
       'vs. an independent derivation + shaping oracle',
       'Bounded: every token string up to the bound on each corpus grammar and option combination; the tree must be the documented shaping of a derivation (of the derivation when unique, '
       'hence engines agree).', 'Trusted: refsem.cfg/shape oracle, CrossHair exhaustion (twins).', '3/C03')
+claim('C07', 'CrossHair symbolic execution of the real BasicLexer/ContextualLexer over the regex-indistinguishable alphabet partition vs. a reference lexer implementing the documented '
+      'precedence, plus z3 regex-theory lemmas on the real terminals (keyword/unless table membership, pairwise disjointness of regexp terminals)',
+      'Bounded by string length per terminal set (str and bytes) and by the terminal-set corpus (incl. 131 terminals around the 100-group chunk boundary); lemmas are unbounded over strings.',
+      'Trusted: terminal definitions (widths, priorities) are inputs of the reference; z3 regex theory; alphabet partition argument.', '3/C07')
 claim('C08', 'CrossHair symbolic execution of the real parsers; exception class, first-offending-token index and expected/accepts sets vs. reference viable-prefix and next-terminal sets; '
       'other exception types escape as counterexamples; watchdog for hangs',
       'Bounded: every token string up to the bound per corpus grammar (Earley, LALR, CYK); token-level positions.',
